@@ -424,6 +424,8 @@ func toResultCodeProto(in message.ResultCode) (autogen.ResultCode, error) {
 		return autogen.ResultCode_TOO_LONG_PING_TIMEOUT, nil
 	case message.ResultCodeTooShortPingTimeout:
 		return autogen.ResultCode_TOO_SHORT_PING_TIMEOUT, nil
+	case message.ResultCodeTooShortPingInterval:
+		return autogen.ResultCode_TOO_SHORT_PING_INTERVAL, nil
 	case message.ResultCodeNodeIDMismatch:
 		return autogen.ResultCode_NODE_ID_MISMATCH, nil
 	case message.ResultCodeRateLimitReached:
